@@ -526,7 +526,14 @@ Definition spec_expect (l : spec) (o : rop) : option robs :=
                              if (Z.of_nat (length l) =? 0)%Z then 0%Z else Z.quot (sum_size l) (Z.of_nat (length l))])
   | OStoreRegions s => Some (RoRegs (map ref_of (spec_fam l FLeader s ++ spec_fam l FFollower s ++ spec_fam l FLearner s)))
   | OAll => Some (RoRegs (sort_refs (map ref_of l)))
-  | ORand1 f st s e _ => Some (RoRandSet true (map ref_of (spec_rand_cands l f st s e)))
+  | ORand1 f st s e dr =>
+      (* the pick implied by the current regions and the drawn index: RandomRegion's sampling (proved sound and
+         complete for the candidates, see the random-pick theorems of props C07) applied to the key-ordered list of the regions
+         that have role f on store st *)
+      match random_one (RT (spec_fam l f st) 0) s e dr with
+      | Some o => Some (RoReg (oref o))
+      | None => None
+      end
   | ORandN f st ranges => Some (RoRandSet true (map ref_of (flat_map (fun se => spec_rand_cands l f st (fst se) (snd se)) ranges)))
   end.
 
@@ -544,7 +551,7 @@ Definition sig_of (o : rop) : string :=
   | OGlobal => "C07:indexed-count-or-total-size-differs-from-cached-regions"
   | OStoreRegions _ => "C07:store-regions-differ-from-current-regions"
   | OAll => "C07:cached-set-differs"
-  | ORand1 _ _ _ _ _ | ORandN _ _ _ => "C07:random-pick-outside-candidates"
+  | ORand1 _ _ _ _ _ | ORandN _ _ _ => "C07:random-pick-differs-from-the-candidates-of-the-current-regions"
   end.
 
 Definition op_in_domain (o : rop) : bool :=
